@@ -265,3 +265,58 @@ def rule_wire_indexed_buffers(ctx):
 
 
 RULES += [("C10.5", rule_wire_indexed_buffers)]
+
+
+# counters whose successor / sum panics by contract (checked_add(1).unwrap(), overflow-checked `+`): their reviewed reason
+# in tables/panic_sites.json is a PROVENANCE argument ("engine-assigned, verified consecutive; u64::MAX unreachable").
+# That argument does not cover a number a peer merely announced. The network crate applies them to local store state
+# only; the sites are frozen here, a new one is reported.
+CONTRACT_ARITH = ("::block::BlockNumber::next", "::block_store::BlockStoreState::next", "::consensus::ViewNumber::next", "::EpochNumber::next")
+REVIEWED_ARITH = {
+    ("zksync_consensus_network::gossip::Network::run_block_fetcher", "BlockStoreState::next"): "applied to engine_manager.queued(): the local, verified store state",
+    ("zksync_consensus_network::gossip::Network::run_block_fetcher", "BlockNumber + u64"): "the fetcher's own cursor, bounded by the local store state",
+}
+
+
+def rule_contract_arith(ctx):
+    R = "C10.6"
+    ctx.rule(R, "successor / sum of block, view and epoch numbers in the network crate: next() is checked_add(1).unwrap() and `+` is overflow-checked, safe only for numbers of verified, locally stored blocks (the reviewed reason of those panic sites). Every call site in the network crate is one of the reviewed ones, whose operand is local store state - never a value a peer announced or sent (a BlockStoreState with last = u64::MAX passes BlockStoreState::verify)")
+    from engine.terms import show
+    found = {}
+    for f in ctx.F.fns:
+        if f.in_testonly() or f.crate != "zksync_consensus_network" or "loadtest" in f.qname or "::testonly" in f.qname:
+            continue
+        T = ctx.T(f)
+        r = f
+        while r.parent is not None:
+            r = r.parent
+        for c in T.calls():
+            q = c["rq"] or c["q"]
+            name = None
+            if q.endswith(CONTRACT_ARITH):
+                name = "::".join(q.split("::")[-2:])
+            elif "BlockNumber as std::ops::Add" in q or "ViewNumber as std::ops::Add" in q:
+                name = "%s + u64" % ("BlockNumber" if "BlockNumber" in q else "ViewNumber")
+            if name is None:
+                continue
+            a = T.args_of(c)
+            found.setdefault((r.qname, name), []).append((f, c, show(a[0])[:70] if a else ""))
+    spare = {}
+    for (rq, name), why0 in REVIEWED_ARITH.items():
+        if (rq, name) not in found:
+            spare[name] = spare.get(name, 0) + 1          # the reviewed site left its function (renamed / moved / extracted)
+    for (rq, name), sites in sorted(found.items()):
+        why = REVIEWED_ARITH.get((rq, name))
+        if why is None and spare.get(name, 0) > 0:
+            spare[name] -= 1
+            ctx.ob(R, "%s in %s (moved)" % (name, rq.split("::", 1)[1]), True, "re-matched as moved: a reviewed %s site left its former function and the number of such sites did not grow" % name, sites[0][0].loc(sites[0][1]["t"].get("ln")))
+            continue
+        if why is not None:
+            ctx.ob(R, "%s in %s" % (name, rq.split("::", 1)[1]), True, "reviewed: %s" % why, sites[0][0].loc(sites[0][1]["t"].get("ln")))
+        else:
+            f, c, arg = sites[0]
+            ctx.ob(R, "%s in %s" % (name, rq.split("::", 1)[1]), False, "%s is applied to %s in %s: it panics (aborts the node) at u64::MAX, and this site is not among the reviewed ones whose operand is local store state - a peer-chosen number reaches it" % (name, arg, rq.split("::", 1)[1]), f.loc(c["t"].get("ln")))
+    ctx.floor(R, "successor sites inventoried", len(found), 1)
+
+
+RULES += [("C10.6", rule_contract_arith)]
